@@ -10,7 +10,8 @@ class C07(Prop):
     design_ref = "DESIGN.md §7 C07"
     models = [ModelRun("apply", apply_gen.gen_paths, lambda c: sum(1 for o in c.ops if o.startswith("req")) >= 3 and "dump" in c.ops,
                        spec_needs_impl=True, jobs=8, shrinkable=True,
-                       regions={"naming.metadata_changes": apply_gen.region_metadata},
+                       regions={"naming.metadata_changes": apply_gen.region_metadata,
+                                "namespace.upgrade_of_weak_entry": apply_gen.region_ns_upgrade},
                        search=lambda rng, b: apply_gen.gen_paths(rng, "thorough")[:b], rule=(
         "three complete nodes as child processes (real config_factory wiring: all seven state-machine actors, raft file "
         "store, StateApplyManager, RaftDataHandler; Raft left un-initialised) driven through their RaftStorage as the raft "
